@@ -569,7 +569,8 @@ func consumeDisplayString(s string) (consumed, rest string, ok bool) {
 		runeLen++
 		if utf8.FullRune(lastRune[:runeLen]) {
 			r, s := utf8.DecodeRune(lastRune[:runeLen])
-			if r == utf8.RuneError {
+			if r == utf8.RuneError && s == 1 {
+				// Invalid encoding (an encoded U+FFFD has size 3 and is valid).
 				return false
 			}
 			copy(lastRune[:], lastRune[s:runeLen])
